@@ -48,12 +48,12 @@ func zzPutEntry(i int, term int64, val byte) *proto.LogEntry {
 // zzLeaderOver builds a real leader controller (real constructor, real DB, real session manager) over a
 // model WAL / KV with the given persisted term.
 func zzLeaderOver(w *zzWal, m *zzKV, term int64, rpc ReplicationRpcProvider) *leaderController {
-	d, err := kv.NewDB("zz", 1, &zzFactory{m}, 0, nil)
+	d, err := kv.NewDB("zz", 1, &zzFactory{kv: m}, 0, nil)
 	vAssert("db-open", err == nil)
 	if term >= 0 {
 		vAssert("term-store", d.UpdateTerm(term, kv.TermOptions{}) == nil)
 	}
-	lc, err := NewLeaderController(zzConfig(), "zz", 1, rpc, &zzWalFactory{w}, &zzFactory{m})
+	lc, err := NewLeaderController(zzConfig(), "zz", 1, rpc, &zzWalFactory{w}, &zzFactory{kv: m})
 	vAssert("leader-open", err == nil)
 	return lc.(*leaderController)
 }
